@@ -21,15 +21,15 @@ Definition U_comp (g : graph) (c : N) (x : N) : Prop :=
 Definition U_node (g : graph) (n : N) (x : N) : Prop :=
   x = n \/ (exists c, In c (first_neighbor g n RHas CComp) /\ U_comp g c x)
         \/ (exists s, In s (first_neighbor g n RHas CNS) /\ U_ns g s x).
-(* disconnecting interface i: a connection point across one of its links, with its family and links *)
+(* disconnecting interface i: a ServicePort across one of its links, with its family and links *)
 Definition U_disc (g : graph) (i : N) (x : N) : Prop :=
-  exists p, In p (peer_cps g i) /\ U_cp g p true x.
+  exists p, In p (peer_cps g i) /\ type_of g p = T_ServicePort /\ U_cp g p true x.
 Definition A_node (g : graph) (nm : N) (x : N) : Prop :=
   exists n, In n (by_name g CNode nm) /\
-            (U_node g n x \/ exists i, In i (node_interface_list g n) /\ U_disc g i x).
+            (U_node g n x \/ exists i, In i (disc_list g (node_interface_list g n)) /\ U_disc g i x).
 Definition A_comp (g : graph) (n cname : N) (x : N) : Prop :=
   exists c, In c (first_neighbor g n RHas CComp) /\ name_of g c = cname /\
-            (U_comp g c x \/ exists i, In i (comp_interface_list g c) /\ U_disc g i x).
+            (U_comp g c x \/ exists i, In i (disc_list g (comp_interface_list g c)) /\ U_disc g i x).
 
 Section Sound.
 Variable g0 : graph.
@@ -137,15 +137,34 @@ Proof.
   - right. exists c. split; [apply (fn_mono d); [ne | exact Hc] | apply (owner_cps_mono d); exact H].
 Qed.
 
+Lemma type_of_restrict_eq d x t : type_of (restrict g0 d) x = t -> t <> 0%N -> type_of g0 x = t /\ ~ In x d.
+Proof.
+  unfold type_of. rewrite find_node_restrict. destruct (memN x d) eqn:E.
+  - intros <- H. exfalso. apply H. reflexivity.
+  - intros H _. split; [exact H | apply memN_false; exact E].
+Qed.
+
+Lemma get_peers_typed_In g i t l x :
+  get_peers_typed g i t = Some l -> In x l -> In x (peer_cps g i) /\ type_of g x = t.
+Proof.
+  unfold get_peers_typed, get_peers. remember (peer_cps g i) as pc eqn:E. destruct pc as [|a r]; [discriminate|].
+  intros H Hx.
+  assert (Hl : l = filter (fun p : N => N.eqb (type_of g p) t) (a :: r)) by congruence.
+  rewrite Hl in Hx. apply filter_In in Hx. destruct Hx as [Hx Ht]. apply N.eqb_eq in Ht. auto.
+Qed.
+
 Lemma Sound_disconnect_interface i : Sound g0 (U_disc g0 i) (disconnect_interface i).
 Proof.
   unfold disconnect_interface.
   apply Sound_bind'; [apply Inv_need_node | apply Sound_read | intros _].
-  apply Sound_bind_get. intros d. unfold get_peers.
-  destruct (peer_cps (restrict g0 d) i) as [|x [|y r]] eqn:E; try apply Sound_ret; try apply Sound_fail.
+  apply Sound_bind_get. intros d.
+  destruct (get_peers_typed (restrict g0 d) i T_ServicePort) as [[|x [|y r]]|] eqn:E;
+    try apply Sound_ret; try apply Sound_fail.
   apply Sound_bind'; [apply Inv_remove_cp | | intros _; apply Sound_ret].
   apply (Sound_weaken g0 (U_cp g0 x true)); [|apply Sound_remove_cp].
-  intros z Hz. exists x. split; [|exact Hz]. apply (peer_cps_mono d). rewrite E. left. reflexivity.
+  destruct (get_peers_typed_In _ _ _ _ x E (or_introl eq_refl)) as [Hp Ht].
+  destruct (type_of_restrict_eq d x _ Ht ltac:(discriminate)) as [Ht0 _].
+  intros z Hz. exists x. split; [apply (peer_cps_mono d); exact Hp | split; [exact Ht0 | exact Hz]].
 Qed.
 
 Lemma Sound_disconnect_peers_of i : Sound g0 (U_disc g0 i) (disconnect_peers_of i).
@@ -157,6 +176,23 @@ Proof.
   apply Sound_bind'; [apply Inv_get | apply Sound_get | intros par].
   destruct par as [|s [|s' r']]; try apply Sound_fail.
   apply Sound_bind'; [apply Inv_disconnect_interface | apply Sound_disconnect_interface | intros _; apply Sound_ret].
+Qed.
+
+Lemma disc_list_mono d (l : list N) ii :
+  (forall i, In i l -> True) ->
+  In ii (disc_list (restrict g0 d) l) -> In ii (disc_list g0 l).
+Proof.
+  intros _. unfold disc_list. rewrite !in_flat_map. intros [i [Hi H]]. exists i. split; [exact Hi|].
+  unfold with_children in *. destruct H as [<-|H]; [left; reflexivity|]. right.
+  destruct (N.eqb (type_of (restrict g0 d) i) T_DedicatedPort) eqn:E; [|destruct H].
+  apply N.eqb_eq in E. destruct (type_of_restrict_eq d i _ E ltac:(discriminate)) as [E0 _].
+  rewrite E0. simpl. apply (fn_mono d); [discriminate | exact H].
+Qed.
+
+Lemma disc_list_sub (g : graph) (l l' : list N) ii :
+  (forall i, In i l -> In i l') -> In ii (disc_list g l) -> In ii (disc_list g l').
+Proof.
+  intros H. unfold disc_list. rewrite !in_flat_map. intros [i [Hi Hx]]. exists i. auto.
 Qed.
 
 Lemma Sound_get_uniq {B} P (q : graph -> list N) e1 e2 (f : N -> M B) :
@@ -191,7 +227,7 @@ Qed.
 Lemma Sound_node_tail nm n :
   In n (by_name g0 CNode nm) ->
   Sound g0 (A_node g0 nm)
-    (bind (m_get (fun g => node_interface_list g n)) (fun ifs =>
+    (bind (m_get (fun g => disc_list g (node_interface_list g n))) (fun ifs =>
      bind (for_each_set disconnect_peers_of ifs) (fun _ =>
      bind (m_get (fun g => by_name g CNode nm)) (fun all =>
      bind (uniq all EQuery EQuery) (fun n' => remove_node_graph n'))))).
@@ -199,8 +235,9 @@ Proof.
   intros Hn. apply Sound_bind_get. intros d1.
   apply Sound_bind'.
   - apply Inv_for_each_set. intros i. apply Inv_disconnect_peers_of.
-  - apply (Sound_peers_loop _ (fun i => In i (node_interface_list g0 n))).
-    + intros i Hi. apply (node_interface_list_mono d1). exact Hi.
+  - apply (Sound_peers_loop _ (fun i => In i (disc_list g0 (node_interface_list g0 n)))).
+    + intros i Hi. apply (disc_list_sub g0 (node_interface_list (restrict g0 d1) n)); [apply (node_interface_list_mono d1)|].
+      apply (disc_list_mono d1); [auto | exact Hi].
     + intros i x Hi Hx. exists n. split; [exact Hn|]. right. exists i. auto.
   - intros _. apply Sound_get_uniq. intros d2 n' E'.
     assert (Hn' : In n' (by_name g0 CNode nm)) by (apply (by_name_sub d2); rewrite E'; left; reflexivity).
@@ -268,8 +305,9 @@ Proof.
   apply Sound_bind_get. intros d1.
   apply Sound_bind'.
   - apply Inv_for_each_set. intros i. apply Inv_disconnect_peers_of.
-  - apply (Sound_peers_loop _ (fun i => In i (comp_interface_list g0 c))).
-    + intros i Hi. apply (owner_cps_mono d1). exact Hi.
+  - apply (Sound_peers_loop _ (fun i => In i (disc_list g0 (comp_interface_list g0 c)))).
+    + intros i Hi. apply (disc_list_sub g0 (comp_interface_list (restrict g0 d1) c)); [apply (owner_cps_mono d1)|].
+      apply (disc_list_mono d1); [auto | exact Hi].
     + intros i x Hi Hx. exists c. split; [exact Hc1|]. split; [exact Hc2|]. right. exists i. auto.
   - intros _. apply (Sound_weaken g0 (U_comp g0 c)); [|apply Sound_remove_component].
     intros x Hx. exists c. split; [exact Hc1|]. split; [exact Hc2|]. left. exact Hx.
@@ -315,7 +353,7 @@ Proof.
 Qed.
 
 Lemma Sound_api_remove_child p iname c :
-  Sound g0 (fun x => exists i, In i (cpn g0 p) /\ name_of g0 i = iname /\ U_cp g0 i false x)
+  Sound g0 (fun x => exists i, In i (cpn g0 p) /\ name_of g0 i = iname /\ (U_cp g0 i false x \/ U_disc g0 i x))
         (api_remove_child p iname c).
 Proof.
   unfold api_remove_child.
@@ -326,9 +364,13 @@ Proof.
   destruct (child_by_name_sub d (first_neighbor (restrict g0 d) p RConnects CCP) iname i) as [A B].
   - intros y Hy. apply fn_mono' in Hy; [tauto | discriminate].
   - rewrite E. left. reflexivity.
-  - apply Sound_bind'; [apply Inv_remove_cp | | intros _; apply Sound_ret].
-    apply (Sound_weaken g0 (U_cp g0 i false)); [|apply Sound_remove_cp].
-    intros x Hx. exists i. split; [apply (fn_mono d); [discriminate | exact A]|]. split; [exact B | exact Hx].
+  - assert (Hi : In i (cpn g0 p)) by (apply (fn_mono d); [discriminate | exact A]).
+    apply Sound_bind'; [apply Inv_disconnect_peers_of | | intros _].
+    + apply (Sound_weaken g0 (U_disc g0 i)); [|apply Sound_disconnect_peers_of].
+      intros x Hx. exists i. auto.
+    + apply Sound_bind'; [apply Inv_remove_cp | | intros _; apply Sound_ret].
+      apply (Sound_weaken g0 (U_cp g0 i false)); [|apply Sound_remove_cp].
+      intros x Hx. exists i. auto.
 Qed.
 
 Lemma Sound_api_unpeer_with xy ca cb :
